@@ -4,6 +4,16 @@
 K = {"name": "TestKnown", "enum": True}
 
 CHECKS = {
+    "C06": {
+        "level": "exploration",
+        "tests": [
+            {"name": "TestC06Sandbox", "checks": [2500, 10000], "shards": [2, 16], "floor": 0.6},
+            {"name": "TestC06Matrix", "enum": True},
+            K,
+        ],
+        "assumptions": ["carriers that are themselves function calls (macro names, parent) are allowed by the policy so that only the occurrence is forbidden",
+                        "an occurrence is only claimed when it is live: the spy runs when the same templates are rendered without `sandboxed`"],
+    },
     "C17": {
         "level": "fault_enumeration",
         "tests": [
